@@ -685,4 +685,58 @@ theorem m0_wf : m0.Wf := by simp [Msg.Wf, m0]
 def w0 : Bytes := (frameWire P0 d0 3 [3, 0xAA, 0xBB]).2
 def d0' : Dir := (frameWire P0 d0 3 [3, 0xAA, 0xBB]).1
 
+theorem set_ne_self (x : Bytes) (j : Nat) (v : UInt8) (h : j < x.length) (hv : x[j]? ≠ some v) : x.set j v ≠ x := by
+  intro e
+  have := congrArg (fun y => y[j]?) e
+  simp [h] at this
+  apply hv
+  rw [List.getElem?_eq_getElem h, this]
+
+
+/-- a second toy instance whose 16-byte MAC tag is injective on headers and on 16-byte frames (for the non-vacuity
+    example of the single-byte corollary): the block cipher is constant zero and the "hash" exposes bytes 16..31. -/
+def H1 (y : Bytes) : Bytes := ((y.drop 16).take 16 ++ y.take 16 ++ List.replicate 32 0).take 32
+def P1 : Prims :=
+  { H := H1, E := fun _ => List.replicate 16 0, ks := fun n => UInt8.ofNat (5 * n + 1),
+    snapEnc := id, snapLen := fun p => some p.length, snapDec := fun p => some p }
+
+theorem P1_wf : Wf P1 := by
+  constructor
+  · intro x; simp [P1, H1]; omega
+  · intro x; simp [P1]
+
+theorem zipXor_zeros (n : Nat) (s : Bytes) (h : n ≤ s.length) : zipXor (List.replicate n 0) s = s.take n := by
+  induction n generalizing s with
+  | zero => simp [zipXor]
+  | succ n ih =>
+    cases s with
+    | nil => simp at h
+    | cons x xs =>
+      simp only [List.replicate_succ, zipXor, List.take_succ_cons, UInt8.zero_xor]
+      rw [ih xs (by simpa using h)]
+
+theorem P1_macStep (m s : Bytes) (h : 16 ≤ s.length) : macStep P1 m s = m ++ s.take 16 := by
+  simp only [macStep, P1]
+  rw [zipXor_zeros 16 s h]
+
+theorem P1_tag_hdr (a : Bytes) (h : a.length = 16) : tag P1 (macStep P1 [] a) = a := by
+  rw [P1_macStep [] a (by omega)]
+  simp only [List.nil_append, tag, P1, H1]
+  rw [List.take_of_length_le (by omega : a.length ≤ 16)]
+  simp only [List.drop_of_length_le (by omega : a.length ≤ 16), List.take_nil, List.nil_append]
+  rw [List.take_take, List.take_of_length_le (by omega : a.length ≤ 16), List.take_left' (by simp [h])]
+
+theorem P1_tag_frame (hdr c : Bytes) (hh : hdr.length = 16) (hc : c.length = 16) :
+    tag P1 (macStep P1 (hdr ++ c) (P1.H (hdr ++ c))) = c := by
+  have hH : P1.H (hdr ++ c) = c ++ hdr := by
+    simp only [P1, H1]
+    rw [List.drop_left' hh, List.take_left' hh, List.take_of_length_le (by omega : c.length ≤ 16)]
+    rw [List.append_assoc, ← List.append_assoc c hdr, List.take_left' (by simp [hh, hc])]
+  rw [P1_macStep _ _ (by rw [hH]; simp [hh, hc])]
+  rw [hH, List.take_left' hc]
+  simp only [tag, P1, H1]
+  rw [List.append_assoc hdr c c, List.drop_left' hh, List.take_left' hc, List.take_left' hh]
+  rw [List.take_take, List.append_assoc, List.take_left' (by simp [hc])]
+
+
 end Aqv.Net
